@@ -19,6 +19,8 @@ CONSTANTS
   ParserContinuesAfterShortRange = FALSE
   Budget0PlansNothing = FALSE
   TailInitPersistsZero = FALSE
+  CkptCountedOnEveryReport = FALSE
+  NewProcReopen = FALSE
 INVARIANTS RefinesCex InvCount InvCursor InvCursorExact InvStored InvDurable TypeOKD
 VIEW View
 CHECK_DEADLOCK FALSE
